@@ -19,6 +19,16 @@ Definition ewf (d : edict) : Prop := NoDup (keys d).
 Definition sample_wf (smp : sample) : Prop := let '(x, g, v) := smp in pwf x /\ pwf g /\ ewf v.
 Definition state_wf (s : state) : Prop := forall f, Forall sample_wf (f_points (funs s f)).
 
+(** every leaf point mentioned by d was created before the counter reached n *)
+Definition below (n : nat) (d : pdict) : Prop := forall k, In k (keys d) -> (k < n)%nat.
+(** the recorded samples only mention existing leaf points *)
+Definition state_below (s : state) : Prop :=
+  forall f x g v, In (x, g, v) (f_points (funs s f)) -> below (pt_ctr s) x /\ below (pt_ctr s) g.
+
+(** value of a recorded sample under a valuation of the leaves *)
+Definition sem_smp {E : ips} (rho : nat -> E) (phi : nat -> R) (smp : sample) : E * E * R :=
+  let '(x, g, v) := smp in (evalP rho x, evalP rho g, evalE rho phi v).
+
 (** [f.list_of_constraints] extended by a list *)
 Definition add_conss (f : nat) (cs : list constr) (s : state) : state :=
   fold_left (fun s c => add_cons f c s) cs s.
